@@ -66,7 +66,7 @@ pub fn check_even(stats: &mut Stats, w: &Cub, class: &str, distance: f64, max_er
     for (i, s) in body.iter().enumerate() {
         let ch = dist(eval(w, s.0), eval(w, s.1));
         // 1e-9 relative slack: the library's own evaluation of the two points differs from this one in the last digits
-        if (ch - distance).abs() > max_error + 1e-9 * distance.max(1.0) { off.push((i, ch)); }
+        if gt((ch - distance).abs(), max_error + 1e-9 * distance.max(1.0)) { off.push((i, ch)); }
     }
     stats.add("even.sections_checked_for_chord", body.len() as u64);
     if let Some((i, ch)) = off.first() {
